@@ -469,7 +469,7 @@ func execStateMethods(c *Ctx, which map[string]bool) {
 				}
 				cc := cp[0].Res[0]
 				parentCtx := wc[0].Args[0]
-				if !(loadedField(parentCtx) == "ctx" && parentCtx.Args[0].Args[0] == cc) {
+				if !(loadedField(parentCtx) == "ctx" && rootedAt(parentCtx.Args[0], cc)) {
 					bad("the child context must derive from the execution's own context (cancellation of the parent reaches the attempt)")
 				}
 				if ev.LoadField(p.State, cc, "ctx") != wc[0].Res[0] || ev.LoadField(p.State, cc, "cancelFunc") != wc[0].Res[1] {
@@ -539,7 +539,7 @@ func execStateMethods(c *Ctx, which map[string]bool) {
 		}
 	}
 
-	if want("record") {
+	if want("record") && c.P.Func("failsafe.(*execution).record") != nil {
 		if ev, ps, name, pos, okk := get("record"); okk {
 			e := recvOf(ev, "record")
 			ex := ev.LoadField(ev.NewState(), e, "executions")
